@@ -1101,6 +1101,9 @@ class Translator:
         result = {}
 
         def kbody(envb):
+            for n_, v_ in envb.items():
+                if isinstance(v_, PyList) and isinstance(env.get(n_), PyList):
+                    result[('list', n_)] = list(v_.items)
             for n in acc_names:
                 vb = envb[n]
                 t = vb.reads if isinstance(vb, Buf) else vb.fills
@@ -1109,6 +1112,11 @@ class Translator:
         body_term = self.ex(list(st.body), env2, cx, kbody)
         cx.loopvars.pop()
         cx.pending = saved_pending
+        for key_, items_ in list(result.items()):
+            if isinstance(key_, tuple) and key_[0] == 'list':
+                # one symbolic element stands for the elements appended in every iteration
+                env[key_[1]] = PyList(items_)
+                del result[key_]
         # futures created in the loop body: one symbolic future stands for all iterations
         # which accumulators changed?
         changed = [n for n in acc_names if result.get(n) != f'@ACC_{n}@']
